@@ -99,7 +99,9 @@ keeping bit 24 for ER6, `@(d:16,ER4)` without sign extension under one upper byt
 damaging R5); the suite stayed green for six of them and all six were reported - five at once, the
 `get_addr_ern` one only by C04's check: C01 and C08 swept all 256 upper bytes through one address register
 and all registers under the upper byte 5A, whose bit 24 is clear.  C01 / C04 / C08 now run every address
-register under upper bytes that set and clear every bit (§6).
+register under upper bytes that set and clear every bit (§6).  An eighth probe (the loader copying a segment to
+p_paddr instead of p_vaddr) was invisible because the ELF generator always wrote p_paddr = p_vaddr; C11 now
+also loads files in which they differ (and p_align / e_entry vary).
 """)
     out.append(f"""### 11.1 Round 1 - two changes per property ("needs something specific to manifest")
 
